@@ -164,12 +164,24 @@ def run(ctx):
     def atomic_replace(fn, inst):
         """the live metadata file only ever appears by rename of a completely written temp file: the function renames, and
         what it creates / opens for writing is the rename's source, never its destination"""
-        fx = FlowCx(P, fn)
-        ren = [(bi, t) for bi, t in fn.calls() if _is(callee_name(t), RENAME)]
-        cre = [(bi, t) for bi, t in fn.calls() if callee_name(t).split("::")[-1] in ("create", "create_new") and "File" in callee_name(t)
-               or callee_name(t).endswith("OpenOptions::open")]
+        def fileops(h):
+            ren_ = [(bi, t) for bi, t in h.calls() if _is(callee_name(t), RENAME)]
+            cre_ = [(bi, t) for bi, t in h.calls() if callee_name(t).split("::")[-1] in ("create", "create_new") and "File" in callee_name(t)
+                    or callee_name(t).endswith("OpenOptions::open")]
+            return ren_, cre_
+        ren, cre = fileops(fn)
         if not cre and not ren:
-            raise CheckerError("C06-R3 %s: neither a file creation nor a rename found in %s" % (inst, fn.id))
+            # the file handling may have been moved into a helper of the module: judge the function that does it
+            for hid in sorted(P.reach([fn])):
+                h = P.fns[hid]
+                if h.id != fn.id and h.krate == fn.krate and "::wal::" in h.id:
+                    r2, c2 = fileops(h)
+                    if r2 or c2:
+                        fn, ren, cre = h, r2, c2
+                        break
+        if not cre and not ren:
+            raise CheckerError("C06-R3 %s: neither a file creation nor a rename found in or below %s" % (inst, fn.id))
+        fx = FlowCx(P, fn)
         srcs = [fx.tags(t["args"][0]) for bi, t in ren]
         dsts = [fx.tags(t["args"][1]) for bi, t in ren if len(t["args"]) > 1]
         ok = bool(ren) and all(any(fx.tags(t["args"][-1] if callee_name(t).endswith("OpenOptions::open") else t["args"][0]) == s_ for s_ in srcs) for bi, t in cre)             and not any(fx.tags(t["args"][-1] if callee_name(t).endswith("OpenOptions::open") else t["args"][0]) in dsts and
@@ -178,10 +190,11 @@ def run(ctx):
                what="%s writes the checkpoint metadata file in place (%d rename calls, %d files created): File::create truncates the "
                     "live file first, so a crash or a failed write during a checkpoint leaves an empty or partial metadata file and "
                     "the next open fails" % (short_id(fn.id), len(ren), len(cre)), where=fn.loc())
-        return bool(ren)
+        return fn if ren else None
 
-    if atomic_replace(wcm, "WalManager::write_checkpoint_metadata#atomic-replace"):
-        check_order(wcm, lambda t: _is(callee_name(t), SYNC_ALL), lambda t: _is(callee_name(t), RENAME),
+    wfn = atomic_replace(wcm, "WalManager::write_checkpoint_metadata#atomic-replace")
+    if wfn is not None:
+        check_order(wfn, lambda t: _is(callee_name(t), SYNC_ALL), lambda t: _is(callee_name(t), RENAME),
                     "WalManager::write_checkpoint_metadata#sync-before-rename",
                     "the checkpoint metadata temp file is renamed into place without a dominating fsync: a crash can leave an empty or partial metadata file")
     ck = P.fn("WalManager::checkpoint")
@@ -212,8 +225,9 @@ def run(ctx):
             if nm == "write_checkpoint_metadata":
                 touches = any(_is(callee_name(t), RENAME) or (callee_name(t).split("::")[-1] in ("create", "create_new") and "File" in callee_name(t))
                               or callee_name(t).endswith("OpenOptions::open") for bi, t in f.calls())
-                if touches and atomic_replace(f, "AsyncWalManager::write_checkpoint_metadata#atomic-replace"):
-                    check_order(f, lambda t: _is(callee_name(t), SYNC_ALL), lambda t: _is(callee_name(t), RENAME),
+                afn = atomic_replace(f, "AsyncWalManager::write_checkpoint_metadata#atomic-replace") if touches else None
+                if afn is not None:
+                    check_order(afn, lambda t: _is(callee_name(t), SYNC_ALL), lambda t: _is(callee_name(t), RENAME),
                                 "AsyncWalManager::write_checkpoint_metadata#sync-before-rename",
                                 "async checkpoint metadata is renamed into place without a dominating fsync")
     # ------------------------------------------------------------------ R4 bounded untrusted length
